@@ -392,7 +392,7 @@ package proxy
 //@   loop 3 invariant s.idRing != nil && s.idRing.wf() && s.nextProxyTaskID == entry(s.nextProxyTaskID) + int64($i)
 //@   loop 3 invariant s.idRing.size > 0 ==> s.idRing.startProxyID + int64(s.idRing.size) == s.nextProxyTaskID + 1
 //@   loop 3 invariant forall k int :: { m.Messages.ReplicationTasks[k] } 0 <= k && k < $i ==> m.Messages.ReplicationTasks[k].SourceTaskId == entry(s.nextProxyTaskID) + int64(k) + 1
-//@   loop 3 invariant (cap(originalIDs) == 0 || newSince(originalIDs)) && (cap(proxyIDs) == 0 || newSince(proxyIDs))
+//@   loop 3 invariant (cap(originalIDs) == 0 || fresh(originalIDs)) && (cap(proxyIDs) == 0 || fresh(proxyIDs))
 
 // ---------------------------------------------------------------------------------------------
 // C03 (safety) and C01 (G3): acknowledgements the routing receiver sends to its source shard.
